@@ -6,7 +6,7 @@ LEAN_PROPS = 'PlumpyModel.Props.C10'
 ASSUMPTIONS = pm_prop.ASSUMPTIONS
 TRUSTED = pm_prop.TRUSTED
 ALPHABET = ['complete', 'completeexc', 'completekilled', 'pause', 'play']
-MONITORS = ['c10', 'looperr']
+MONITORS = ['c10', 'c06', 'looperr']      # c06: a work chain whose awaited items have all completed does not stay WAITING
 
 
 def run(ctx):
